@@ -45,7 +45,7 @@ def cell_values(dtype, n, rng, mode="distinct"):
     if mode == "small":
         hi = 5
         if dt.kind == "f":
-            return np.array([float(rng.randint(0, hi)) for _ in range(n)], dtype=dt)
+            return np.array([rng.choice([0.1, 0.7, 2.5, 1.0, 3.3, 0.0]) for _ in range(n)], dtype=dt)
         return np.array([rng.randint(0, hi) for _ in range(n)], dtype=dt)
     if dt.kind in "iu":
         info = np.iinfo(dt)
